@@ -293,7 +293,7 @@ class Circuit(object):
 
             else:
                 self.circuit[i][self.j] = self.gates.ECR_inv(
-                    self.phi[k], self.phi[i], t_ecr, p_i_k, p_i, p_k, T1_ctr, T2_ctr, T1_trg, T2_trg
+                    self.phi[k], self.phi[i], t_ecr, p_i_k, p_k, p_i, T1_trg, T2_trg, T1_ctr, T2_ctr
                 )
             self.s = self.s+2
 
@@ -308,7 +308,7 @@ class Circuit(object):
 
             else:
                 self.circuit[i][self.j] = self.gates.ECR_inv(
-                    self.phi[k], self.phi[i], t_ecr, p_i_k, p_i, p_k, T1_ctr, T2_ctr, T1_trg, T2_trg
+                    self.phi[k], self.phi[i], t_ecr, p_i_k, p_k, p_i, T1_trg, T2_trg, T1_ctr, T2_ctr
                 )
                 
 
@@ -568,7 +568,7 @@ class AlternativeCircuit(object):
         else:
             # Control i
             self._mp[i] = self.gates.ECR_inv(
-                self.phi[k], self.phi[i], t_ecr, p_i_k, p_i, p_k, T1_ctr, T2_ctr, T1_trg, T2_trg
+                self.phi[k], self.phi[i], t_ecr, p_i_k, p_k, p_i, T1_trg, T2_trg, T1_ctr, T2_ctr
             )
 
         # Bookkeeping
@@ -858,7 +858,7 @@ class BinaryCircuit(object):
         else:
             # Control i
             the_gate = self.gates.ECR_inv(
-                self.phi[k], self.phi[i], t_ecr, p_i_k, p_i, p_k, T1_ctr, T2_ctr, T1_trg, T2_trg
+                self.phi[k], self.phi[i], t_ecr, p_i_k, p_k, p_i, T1_trg, T2_trg, T1_ctr, T2_ctr
             )
 
             self.apply(gate=the_gate, i=k, j=i)
